@@ -222,6 +222,7 @@ def strategy_(draw, tier):
     unit = cs // 32 if spec["ext_l2"] and draw(st.booleans()) else cs
     spec["requests"] = draw(strat.requests(spec["size"], unit, count=6, points=request_points(spec), whole_limit=2 << 20))
     spec["via_minimal"] = draw(strat.minimal_handle())
+    spec["fault"] = draw(strat.fault())
     if spec.get("motif_request"):
         off, n = spec["motif_request"]
         if off < spec["size"]:
@@ -318,7 +319,7 @@ def check(spec) -> Outcome:
         return out
     if q.size != spec["size"]:
         out.fail(f"mismatch|{tag}-size", f"size {q.size} != {spec['size']}")
-    check_reads(out, q, model_of(spec, layers), spec["requests"], tag)
+    check_reads(out, q, model_of(spec, layers), spec["requests"], tag, fault=spec.get("fault"), fault_fh=fh)
     if not spec["data_file"] and not spec.get("backing"):
         from dissect.hypervisor.disk.qcow2 import QCow2
         from hv.core import also_minimal
